@@ -335,6 +335,32 @@ func (w *World) ScriptE(src string, engine string, args ...[]byte) (res Result) 
 	return
 }
 
+// InvokeE calls a contract function through runtime.InvokeContractFunction on the named engine.
+func (w *World) InvokeE(addr common.Address, contract, function string, engine string) (res Result) {
+	w.begin()
+	saved := w.snapshotCodes()
+	defer func() {
+		unregisterWorld(w)
+		if r := recover(); r != nil {
+			res.Err = fmt.Errorf("escaped panic: %v", r)
+			res.Class = "crash"
+		}
+		if res.Err != nil {
+			w.Codes = saved
+		}
+		res.Logs, res.Events, res.Writes, res.UUIDs, res.Trace = w.logs, w.events, w.writes, w.uuids, w.trace
+	}()
+	v, err := w.RT.InvokeContractFunction(
+		common.AddressLocation{Address: addr, Name: contract},
+		function, nil, nil,
+		w.ctx(w.nextTxLoc(), engine, false),
+	)
+	res.Value = v
+	res.Err = err
+	res.Class = Classify(err)
+	return
+}
+
 // Deploy adds a contract through a real transaction signed by addr.
 func (w *World) Deploy(addr common.Address, name, code string) error {
 	tx := fmt.Sprintf(`transaction { prepare(s: auth(Contracts) &Account) { s.contracts.add(name: %q, code: "%s".decodeHex()) } }`,
